@@ -60,6 +60,8 @@ struct Counters {
     max_lead: AtomicI64,
     /// largest RecordSet::buf_capacity() the consumer has seen (read_parallel runs)
     maxsetcap: AtomicI64,
+    /// results delivered by a next() call made after the end marker had been received
+    again_some: AtomicI64,
 }
 impl Counters {
     fn new(seed: u64, jitter: bool) -> Counters {
@@ -78,6 +80,7 @@ impl Counters {
             got: AtomicI64::new(0),
             max_lead: AtomicI64::new(0),
             maxsetcap: AtomicI64::new(0),
+            again_some: AtomicI64::new(0),
         }
     }
     fn jitter(&self) {
@@ -549,15 +552,28 @@ fn api_err_json(e: &ApiErr) -> String {
 pub struct Chunked {
     inner: std::io::Cursor<Vec<u8>>,
     chunk: usize,
+    /// > 0: the read call that would deliver the byte at this offset (1-based) fails instead, with this kind
+    fail_at: usize,
+    kind: std::io::ErrorKind,
 }
 impl Chunked {
     fn new(x: Vec<u8>, chunk: usize) -> Chunked {
-        Chunked { inner: std::io::Cursor::new(x), chunk }
+        Chunked { inner: std::io::Cursor::new(x), chunk, fail_at: 0, kind: std::io::ErrorKind::Other }
+    }
+    fn failing(x: Vec<u8>, chunk: usize, fail_at: usize, kind: &str) -> Chunked {
+        Chunked { inner: std::io::Cursor::new(x), chunk, fail_at, kind: crate::source::kind_of(kind) }
     }
 }
 impl std::io::Read for Chunked {
     fn read(&mut self, buf: &mut [u8]) -> std::io::Result<usize> {
-        let n = if self.chunk == 0 { buf.len() } else { buf.len().min(self.chunk) };
+        let mut n = if self.chunk == 0 { buf.len() } else { buf.len().min(self.chunk) };
+        if self.fail_at > 0 {
+            let pos = self.inner.position() as usize;
+            if pos + 1 >= self.fail_at {
+                return Err(std::io::Error::from(self.kind));
+            }
+            n = n.min(self.fail_at - 1 - pos);
+        }
         self.inner.read(&mut buf[..n])
     }
 }
@@ -579,6 +595,9 @@ pub struct ApiCase {
     pub big: bool,
     /// bytes per read call of the source (0 = unlimited)
     pub chunk: usize,
+    /// > 0: the source fails when the byte at this 1-based offset is due, with error kind `iokind`
+    pub iofail: usize,
+    pub iokind: String,
     /// for long inputs: what the input consists of, [kind, n]: kind 0 = n records with one base, kind 1 = one record with n bases
     pub pattern: Vec<(usize, usize)>,
 }
@@ -589,6 +608,7 @@ macro_rules! api_runner {
             use seq_io::$m::Record as _;
             let x = c.x.clone();
             let chunk = c.chunk;
+            let (iofail, iokind) = (c.iofail, c.iokind.clone());
             let cap = c.cap;
             let stop_after = c.stop_after;
             let slow = c.slow_consumer;
@@ -645,7 +665,7 @@ macro_rules! api_runner {
                 let r: Result<Option<usize>, ApiErr> = parallel::$pinit(
                     c.nw,
                     c.q,
-                    move || if rfail { Err(ERi) } else { Ok(seq_io::$m::Reader::with_capacity(Chunked::new(x, chunk), cap)) },
+                    move || if rfail { Err(ERi) } else { Ok(seq_io::$m::Reader::with_capacity(Chunked::failing(x, chunk, iofail, &iokind), cap)) },
                     move || {
                         let k = n1.0.fetch_add(1, Ordering::SeqCst) + 1;
                         if k == rf {
@@ -671,7 +691,7 @@ macro_rules! api_runner {
                     Err(e) => api_err_json(&e),
                 }
             } else {
-                let reader = seq_io::$m::Reader::with_capacity(Chunked::new(x, chunk), cap);
+                let reader = seq_io::$m::Reader::with_capacity(Chunked::failing(x, chunk, iofail, &iokind), cap);
                 let mut func = func;
                 let r = parallel::$pfn(reader, c.nw, c.q, move |rec: seq_io::$m::RefRecord, d: &mut RecOut| work(rec, d, &mut 0), move |rec: seq_io::$m::RefRecord, d: &mut RecOut| func(rec, d, &mut 0));
                 match r {
@@ -691,7 +711,7 @@ macro_rules! sets_runner {
         /// read_parallel with the real reader as parallel::Reader: the consumer sees whole record sets
         fn $fname(c: &ApiCase, ct: &Arc<Counters>, calls: &Arc<Mutex<Vec<String>>>) -> String {
             use seq_io::$m::Record as _;
-            let reader = seq_io::$m::Reader::with_capacity(Chunked::new(c.x.clone(), c.chunk), c.cap);
+            let reader = seq_io::$m::Reader::with_capacity(Chunked::failing(c.x.clone(), c.chunk, c.iofail, &c.iokind), c.cap);
             let ct2 = ct.clone();
             let ct3 = ct.clone();
             let big = c.big;
@@ -746,6 +766,10 @@ macro_rules! sets_runner {
                             return Ok(Some(nsets));
                         }
                     }
+                    // asking again after the end: the end is final (and the call must not block)
+                    if sets.next().is_some() {
+                        ct3.again_some.fetch_add(1, Ordering::SeqCst);
+                    }
                     Ok(None)
                 },
             );
@@ -765,7 +789,7 @@ macro_rules! records_runner {
         /// parallel_records: the generic per-record function (outputs are passed to the consumer by shared reference)
         fn $fname(c: &ApiCase, ct: &Arc<Counters>, calls: &Arc<Mutex<Vec<String>>>) -> String {
             use seq_io::$m::Record as _;
-            let reader = seq_io::$m::Reader::with_capacity(Chunked::new(c.x.clone(), c.chunk), c.cap);
+            let reader = seq_io::$m::Reader::with_capacity(Chunked::failing(c.x.clone(), c.chunk, c.iofail, &c.iokind), c.cap);
             let ct2 = ct.clone();
             let ct3 = ct.clone();
             let big = c.big;
@@ -882,7 +906,7 @@ fn run_api(c: &ApiCase, seed: u64) -> String {
     let count = |t: &str, p: &str| -> usize { g.logs.iter().filter(|(n, _)| n.starts_with(t)).map(|(_, e)| e.iter().filter(|v| v["p"] == p).count()).sum() };
     let calls_v = calls.lock().unwrap();
     format!(
-        "{{\"ev\":\"run\",\"chunk\":{},\"big\":{},\"api\":\"{}\",\"fmt\":\"{}\",\"input\":{},\"cap\":{},\"NW\":{},\"Q\":{},\"stop_after\":{},\"rinit_fail\":{},\"recinit_fail_at\":{},\"setinit_fail_at\":{},\"result\":{},\"set_sizes\":{:?},\"calls\":[{}],\"ncalls\":{},\"nbad\":{},\"lead\":{},\"maxsetcap\":{},\"ndefault\":{},\"nworks\":{},\"nrecinit\":{},\"nsetinit\":{},\"fills_ok\":{},\"senderr\":{},\"sendend\":{},\"recv_ok\":{},\"jobs_started\":{},\"jobs_finished\":{},\"late_events\":{}}}",
+        "{{\"ev\":\"run\",\"chunk\":{},\"big\":{},\"api\":\"{}\",\"fmt\":\"{}\",\"input\":{},\"cap\":{},\"NW\":{},\"Q\":{},\"stop_after\":{},\"rinit_fail\":{},\"recinit_fail_at\":{},\"setinit_fail_at\":{},\"result\":{},\"set_sizes\":{:?},\"calls\":[{}],\"ncalls\":{},\"nbad\":{},\"lead\":{},\"maxsetcap\":{},\"ndefault\":{},\"again_some\":{},\"iofail\":{},\"iokind\":\"{}\",\"nworks\":{},\"nrecinit\":{},\"nsetinit\":{},\"fills_ok\":{},\"senderr\":{},\"sendend\":{},\"recv_ok\":{},\"jobs_started\":{},\"jobs_finished\":{},\"late_events\":{}}}",
         c.chunk,
         c.big,
         c.api,
@@ -903,6 +927,9 @@ fn run_api(c: &ApiCase, seed: u64) -> String {
         ct.max_lead.load(Ordering::SeqCst),
         ct.maxsetcap.load(Ordering::SeqCst),
         RECOUT_DEFAULTS.load(Ordering::SeqCst),
+        ct.again_some.load(Ordering::SeqCst),
+        c.iofail,
+        c.iokind,
         works.lock().unwrap().len(),
         ninit.0.load(Ordering::SeqCst),
         ninit.1.load(Ordering::SeqCst),
@@ -964,6 +991,8 @@ pub fn cmd_api(suite: &Value, out: &str, seed: u64) {
             slow_consumer: rng.chance(1, 3),
             big: false,
             chunk: *rng.pick(&[0usize, 0, 0, 1, 7, 100]),
+            iofail: 0,
+            iokind: "other".into(),
             pattern: vec![],
             x,
         };
@@ -980,6 +1009,14 @@ pub fn cmd_api(suite: &Value, out: &str, seed: u64) {
             c.stop_after = if rng.chance(1, 5) { 0 } else { 1 + rng.below(nrec) };
             c.cap = *rng.pick(&[3usize, 8, 12, 16, 24, 32]);
         }
+        if suite["focus"].as_str() == Some("iofail") {
+            c.stop_after = 0;
+            c.rinit_fail = false;
+            c.recinit_fail_at = 0;
+            c.setinit_fail_at = 0;
+            c.iofail = 1 + rng.below(c.x.len() + 1);
+            c.iokind = (*rng.pick(&["other", "permission_denied", "unexpected_eof", "would_block", "timed_out"])).to_string();
+        }
         if suite["focus"].as_str() == Some("big") {
             // many tiny records (batches of several hundred records), then a few long ones, repeated: the recycled
             // per-record output vectors are much longer than some later batch
@@ -990,13 +1027,21 @@ pub fn cmd_api(suite: &Value, out: &str, seed: u64) {
                     pat.push((1, 2500 + rng.below(800)));
                 }
             }
+            // every fourth long run: records far larger than the buffer (80 to 320 KiB each, capacity 64 KiB)
+            let huge = i % 4 == 1;
+            if huge {
+                pat.clear();
+                for _ in 0..(30 + rng.below(20)) {
+                    pat.push((1, 80_000 + rng.below(240_000)));
+                }
+            }
             let x = render_pattern(&fmt, &pat);
             c.pattern = pat;
             c.x = x;
             c.big = true;
             c.chunk = *rng.pick(&[0usize, 1000, 8192]);
             c.api = match i % 4 { 0 => "parallel_init".into(), 1 => "read_parallel".into(), 2 => "records".into(), _ => "parallel".into() };
-            c.cap = 8192;
+            c.cap = if huge { 65536 } else { 8192 };
             c.stop_after = 0;
             c.rinit_fail = false;
             c.recinit_fail_at = 0;
